@@ -45,6 +45,7 @@ MCSpec == MCInit /\ [][MCNext]_mcvars
 AllR == 0..(Q - 1)
 R1 == {3}
 A1 == {2}
+A2 == {0, 3}
 H01 == {0, 1}
 H0 == {0}
 H1 == {1}
